@@ -11,12 +11,16 @@ PROP = {
             "generated environments and every fixed-family map again are sent with the entries of every map in a pseudo-random order "
             "(the model sorts where the code sorts); for "
             "each pair the Go maps (bindings map included) are built in 4 insertion orders; rendered 5x on one parsed "
-            "template with one environment object, with the 3 other constructions, on 2 fresh parses, on 2 fresh "
+            "template with one environment object, with the 3 other constructions, twice more after the same parsed template was "
+            "rendered with other bindings, on 2 fresh parses, on 2 fresh "
             "engines, and through Render, RenderString, FRender, ParseAndRender, ParseAndRenderString, ParseAndFRender "
             "(the three ParseAnd* calls cannot name a source path and are left out for the about 10 % of the cases that carry an "
             "include layout); "
             "environment-free templates are also run through cmd/liquid built from the working tree. All results "
-            "(bytes, or error kind/line/path/cause and text) must be identical. Non-trivial = renders non-empty output.",
+            "(bytes, or error kind/line/path/cause and text) must be identical. Two implementation-only families without case lines "
+            "(shard 0): struct types that share a name, rendered in sequence in one process, against twins of a unique name; four maps "
+            "keyed by arrays or structs with different keys that print alike x 6 templates x 60 renders on fresh engines. "
+            "Non-trivial = renders non-empty output.",
     "trusted_base": COMMON_TB,
     "assumptions": ["fresh processes are covered through the cmd/liquid runs only; the clock (date 'now') is never generated"],
 }
@@ -28,11 +32,14 @@ TEXT = {
               'by rfl); entrypoints_agree (also by rfl) says that a model of ParseAndRender - compile, then Render of the tree - '
               'unfolds to `run`; the other entry points have no model of their own, their agreement is checked by `determ` only. '
               'Theorems with content, about Go\'s random map iteration order. The model holds a map as a LIST of entries in the order '
-              'of the case line (no order is assumed) and every place that iterates a map sorts first, as every such place of the code '
-              'calls values.SortedMapKeys: Liquid/MapOrder.lean transcribes keyClass / valueLess / numberLess / keyTypeName / keyLess of '
-              'values/sort.go clause by clause, sortedEntries is the stable (insertion) sort by keyLess on the key, and loopItems '
+              'of the case line (no order is assumed) and every place of the model whose result could depend on the order in which the entries are visited sorts first, '
+              'as the two such places of the code - makeIterator of for / tablerow and Convert of a map to []any - call values.SortedMapKeys '
+              '(an IterationKeyedMap is iterated through its keys after sort.Strings - sortedFields in the model - and ParentTags sorts the names it collects for an error message; '
+              'fmt.Sprint and json.Marshal sort the keys themselves; equalMaps / eqItems are conjunctions over all entries; the other audited sites copy every entry into a fresh map: T5 below): '
+              'Liquid/MapOrder.lean transcribes keyClass / valueLess / numberLess / keyTypeName / keyLess of '
+              'values/sort.go clause by clause, except the last clause of valueLess (keys of class 4, not evaluated); sortedEntries is the stable (insertion) sort by keyLess on the key, and loopItems '
               '(for / tablerow over a map) and Convert of a map to []any (the receiver of every array filter) call it; a map with two '
-              'or more keys that are neither booleans, numbers nor strings (ordered by fmt.Sprint in Go) is `unmodelled`. '
+              'or more keys that are neither booleans, numbers nor strings (class 4; ordered in Go by fmt.Sprint and, since 08ac245 + 7d98ddf, when they print alike by keySyntax) is `unmodelled`. '
               'Proofs/MapOrder.lean, for keys that are booleans, numbers (integers inside the range of their Go type) or strings and '
               'pairwise distinct as Go map keys - different dynamic type or different value, as two keys of one Go map always are '
               '(KeysOK): keyLess_irrefl, keyLess_trans, keyLess_total - keyLess is a strict total order (keyLess_total is the statement '
@@ -41,7 +48,8 @@ TEXT = {
               'visits), convert_map_perm (the array an array filter receives), applyFilter_map_perm and first_map_perm / '
               'last_map_perm / join_map_perm / size_map_perm. sort_perm_invariant / map_order_independent are the earlier statement '
               'for string keys and mergeSort. Whole render (Proofs/C02.lean over Proofs/MapPerm*.lean): MP a b - b is a with the entry '
-              'lists of maps permuted at any depth (inductive on GoVal; maps with KeysOK keys; the renderer\'s own forloop record is '
+              'lists of maps permuted at any depth (inductive on GoVal; maps with KeysOK keys of the map\'s key type, KeysTyped; ordered maps (yaml.MapSlice), '
+              'keyed maps and structs keep the order of their entries and have related values; the renderer\'s own forloop record is '
               'related to itself only); run_map_order_independent - for every comparison / filter layer and output layer that respect '
               'MP, every template, configuration, file system and include depth, environments whose bindings are MP-related render to '
               'the same result (lock-step induction over the compiled tree: lookups find the same entry because keys are distinct, '
@@ -52,7 +60,10 @@ TEXT = {
               '<: opLt_prep_mp, exact; contains: opContains_prep_mp) and every filter (filterRespectsM_all; json / inspect: '
               'marshal_jrel - the two values marshal to the same text or neither marshals; type: typeName_mp; sort / sort_natural: '
               'insertionSortM_mp, mergeSort_mp - both runs make the same comparisons with the same answers; uniq: canonOrder_mp) '
-              'respect MP up to `unmodelled` - entries are printed and compared in list order, so which part of a value leaves the '
+              'respect MP up to `unmodelled` (the lemmas named in this sentence from sprint_mp on are helper lemmas of modules that are not audited under their own names - '
+              'Proofs/MapPermStd.lean: sprint_mp, stdOut_respectsM; MapPermEqual: equal_mp, opContains_prep_mp; MapPermCmp: opLt_prep_mp; MapPermSort: '
+              'filterRespectsM_all, insertionSortM_mp, mergeSort_mp; MapPermJson: marshal_jrel, typeName_mp; MapPermUniq: canonOrder_mp - checked by the build, '
+              'and reached by `#print axioms` only through run_std_map_order_independent, which uses them) - entries are printed and compared in list order, so which part of a value leaves the '
               'model first, and with an early exit whether it is reached at all, depends on that order. '
               'The JSON printers (json, inspect) do sort inside the model: '
               'jsonObject_perm / json_map_order_independent / json_keyedMap_order_independent prove that '
@@ -67,11 +78,13 @@ TEXT = {
               'harness/codec.go; drawn from an RNG of the case, so a case replays): the Go maps are the same, the model has to sort to '
               'agree. The streams loops (C11) and arrf (C15) do the same for half of their cases that hold a map.'),
     "design_ref": 'DESIGN.md 6 C02',
-    "note": NOTE + ("That every place where the CODE iterates a map sorts first is established by the source tie T5 and the "
-              'metamorphic runs, and by the correspondence on shuffled entry lists (the model sorts at exactly those places); the '
+    "note": NOTE + ("That every place where the CODE iterates a map sorts first, copies every entry into a fresh map or is a conjunction over all entries "
+              'is the reading recorded by the source tie T5 (ten audited sites; the obligation re-checks the list of sites, not the justifications), supported by the '
+              'metamorphic runs and by the correspondence on shuffled entry lists (the model sorts at exactly the two places where the code calls SortedMapKeys); the '
               'whole-render theorem for the standard engine (run_std_map_order_independent) is an '
               'agreement up to `unmodelled`, not an equality. Keys that are neither booleans, numbers nor strings are ordered by '
-              'fmt.Sprint in Go: outside every theorem (and two different such keys can print alike: 7.3). There is no theorem about '
+              'fmt.Sprint in Go and, when two different such keys print alike, by keySyntax (repaired by 08ac245 + 7d98ddf, 7.1; pointer keys print as addresses): '
+              'outside every theorem and, for a map with two or more of them, outside the model - covered by the implementation-only family of `determ` alone. There is no theorem about '
               'parsed templates, engines or entry points as objects with state - the '
               "metamorphic runs carry that. The clock (date: 'now') is outside the property and never generated."),
     "technique": ('Lean 4 proof (the comparator of values.SortedMapKeys is a strict total order on the keys of one map, so the sorted '
